@@ -4,12 +4,18 @@ import (
 	"fmt"
 	"testing"
 
+	"verifharness/vlib"
 	"verifharness/vlib/render"
 )
+
+func vlibRng() *vlib.Rng { return vlib.NewRng(7) }
 
 func TestProbe(t *testing.T) {
 	docs := []Doc{
 		{Name: "twofloats", TestUA: true, HTML: `<style>@page{size:300px 220px;margin:24px} div{float:left;width:50px;height:400px}</style><body><div style="background:red"></div><div style="background:blue;width:70px"></div>`},
+		{Name: "twotextfloats", TestUA: true, HTML: `<style>@page{size:300px 220px;margin:24px} html{font-family:weasyprint;font-size:10px} div{float:left;width:50px}</style><body><div style="background:red">`+lorem(vlibRng(), 60)+`</div><div style="background:blue;width:70px">`+lorem(vlibRng(), 80)+`</div>`},
+		{Name: "onetextfloat", TestUA: true, HTML: `<style>@page{size:300px 220px;margin:24px} html{font-family:weasyprint;font-size:10px} div{float:left;width:50px}</style><body><div style="background:red">`+lorem(vlibRng(), 60)+`</div>`},
+		{Name: "textfloat+fixed", TestUA: true, HTML: `<style>@page{size:300px 220px;margin:24px} html{font-family:weasyprint;font-size:10px} div{float:left;width:50px}</style><body><div style="background:red">`+lorem(vlibRng(), 60)+`</div><div style="background:blue;height:500px"></div>`},
 	}
 	for _, d := range docs {
 		seen := map[[5]uint64]int{}
